@@ -7,15 +7,15 @@ namespace RsslVerif.Lemmas.FixpointMain
 open RsslVerif.Gen.RankTable RsslVerif.Gen.TypingTables
 open RsslVerif.Model.Conv RsslVerif.Model.Overload RsslVerif.Model.IrTyping RsslVerif.Model.Elab
 open RsslVerif.Model.Fixpoint RsslVerif.Lemmas.ElabConv RsslVerif.Lemmas.Elab RsslVerif.Lemmas.ElabExact
-open RsslVerif.Lemmas.ElabRelease RsslVerif.Lemmas.FixpointElab RsslVerif.Lemmas.FixpointArith
-open RsslVerif.Lemmas.FixpointForms RsslVerif.Lemmas.FixpointCall
+open RsslVerif.Lemmas.ElabRelease RsslVerif.Lemmas.FixpointElab RsslVerif.Lemmas.FixpointArith RsslVerif.Lemmas.FixpointArithDim
+open RsslVerif.Lemmas.FixpointForms RsslVerif.Lemmas.FixpointCall RsslVerif.Lemmas.FixpointPlace
 
 variable {Γ Γ' : Env}
 
-/-! ## the hypothesis on `out` arguments is inherited by unconverted operands -/
+/-! ## conversions keep "no `Cast` in an `out` / `inout` argument position" -/
 
-theorem outPlain_of_applyConv {c : Conversion} {a a2 : IExpr} (h : applyConv c a = .ok a2) (hp : OutArgsPlain Γ a2) :
-    OutArgsPlain Γ a := by
+theorem applyConv_out {c : Conversion} {a a2 : IExpr} (h : applyConv c a = .ok a2) (hp : OutArgsPlain Γ a) :
+    OutArgsPlain Γ a2 := by
   unfold applyConv at h
   split at h
   · simp at h; subst h; exact hp
@@ -28,13 +28,13 @@ theorem outPlain_of_applyConv {c : Conversion} {a a2 : IExpr} (h : applyConv c a
         · split at h <;> simp at h <;> subst h <;> simp_all [OutArgsPlain]
         · simp at h; subst h; simpa [OutArgsPlain] using hp
 
-theorem outPlain_of_convert {a a2 : IExpr} {s d t : ETy} (h : convert a s d = .ok (some (a2, t)))
-    (hp : OutArgsPlain Γ a2) : OutArgsPlain Γ a := by
+theorem convert_out {a a2 : IExpr} {s d t : ETy} (h : convert a s d = .ok (some (a2, t)))
+    (hp : OutArgsPlain Γ a) : OutArgsPlain Γ a2 := by
   obtain ⟨c, _, ha, _⟩ := convert_inv h
-  exact outPlain_of_applyConv ha hp
+  exact applyConv_out ha hp
 
-theorem outPlainArgs_of_castArgs : ∀ (ps : List Param) (args : IArgs) (ts : List ETy) (args2 : IArgs),
-    castArgs ps args ts = .ok args2 → OutArgsPlainArgs Γ args2 → OutArgsPlainArgs Γ args
+theorem castArgs_out : ∀ (ps : List Param) (args : IArgs) (ts : List ETy) (args2 : IArgs),
+    castArgs ps args ts = .ok args2 → OutArgsPlainArgs Γ args → OutArgsPlainArgs Γ args2
   | p :: ps, .cons e r, t :: ts, args2, h, hp => by
     simp only [castArgs] at h
     split at h
@@ -46,20 +46,20 @@ theorem outPlainArgs_of_castArgs : ∀ (ps : List Param) (args : IArgs) (ts : Li
       · rename_i r2 hr2
         simp at h; subst h
         simp only [OutArgsPlainArgs] at hp ⊢
-        exact ⟨outPlain_of_convert hc hp.1, outPlainArgs_of_castArgs ps r ts r2 hr2 hp.2⟩
-  | _, .nil, [], _, _, _ => by simp [OutArgsPlainArgs]
+        exact ⟨convert_out hc hp.1, castArgs_out ps r ts r2 hr2 hp.2⟩
+  | _, .nil, [], _, h, _ => by simp [castArgs] at h; subst h; simp [OutArgsPlainArgs]
   | [], .cons _ _, _ :: _, _, h, _ => by simp [castArgs] at h
   | _, .cons _ _, [], _, h, _ => by simp [castArgs] at h
   | _, .nil, _ :: _, _, h, _ => by simp [castArgs] at h
 
 theorem castOperand_out {f : Err} {e e2 : IExpr} {τ inp : ETy} (h : castOperand f e τ inp = .ok e2)
-    (hp : OutArgsPlain Γ e2) : OutArgsPlain Γ e := by
+    (hp : OutArgsPlain Γ e) : OutArgsPlain Γ e2 := by
   rcases castOperand_inv h with ⟨_, rfl⟩ | ⟨_, c, _, ha⟩
   · exact hp
-  · exact outPlain_of_applyConv ha hp
+  · exact applyConv_out ha hp
 
-theorem elabUn_out {o : UnOp} {e n : IExpr} {τ τ' : ETy} (h : elabUn o e τ = .ok (n, τ')) (hp : OutArgsPlain Γ n) :
-    OutArgsPlain Γ e := by
+theorem elabUn_out {o : UnOp} {e n : IExpr} {τ τ' : ETy} (h : elabUn Γ o e τ = .ok (n, τ')) (hp : OutArgsPlain Γ e) :
+    OutArgsPlain Γ n := by
   cases o <;> simp only [elabUn] at h
   all_goals (repeat' split at h)
   all_goals (first | (simp at h; done) | skip)
@@ -67,7 +67,7 @@ theorem elabUn_out {o : UnOp} {e n : IExpr} {τ τ' : ETy} (h : elabUn o e τ = 
   all_goals (first
     | (simpa [OutArgsPlain, OutArgsPlainArgs] using hp; done)
     | (simp [OutArgsPlain]; done)
-    | (simp [OutArgsPlain, OutArgsPlainArgs] at hp; exact castOperand_out (by assumption) hp))
+    | (simp only [OutArgsPlain, OutArgsPlainArgs, and_true]; exact castOperand_out (by assumption) hp))
 
 /-- release-mode `selfCheck` is the identity -/
 theorem selfCheck_false {n e : IExpr} {τ' τ : ETy} (h : selfCheck false Γ n τ' = .ok (e, τ)) : n = e ∧ τ' = τ := by
@@ -117,7 +117,7 @@ theorem elab_lit_kind : ∀ (s : SExpr) (k : Scalar) (τ : ETy), SrcOk s → ela
           · simp at h
           · rename_i n τn hn
             obtain ⟨rfl, rfl⟩ := selfCheck_false h
-            obtain ⟨_, _, _, _, _, _, h4, _⟩ := elabAssign_stable hn
+            obtain ⟨_, _, _, _, h4⟩ := elabAssign_node hn
             cases h4
         · simp [selfCheck] at h
   | .tern c a b, k, τ, _, h => by
@@ -160,7 +160,7 @@ theorem elabE_bin_arith {o : BinOp} {x' y' : SExpr} {a b n : IExpr} {τa τb τ 
 
 theorem elabE_bin_assign {o : BinOp} {x' y' : SExpr} {a b n : IExpr} {τa τb τ : ETy} (hc : o.cls = .assign)
     (h1 : elabE false Γ' x' = .ok (a, τa)) (h2 : elabE false Γ' y' = .ok (b, τb))
-    (h3 : elabAssign o a τa b τb = .ok (n, τ)) : elabE false Γ' (.bin o x' y') = .ok (n, τ) := by
+    (h3 : elabAssign Γ' o a τa b τb = .ok (n, τ)) : elabE false Γ' (.bin o x' y') = .ok (n, τ) := by
   simp [elabE, h1, h2, hc, h3, selfCheck]
 
 theorem elabE_tern {c' x' y' : SExpr} {c a b n : IExpr} {τc τa τb τ : ETy}
@@ -174,15 +174,15 @@ theorem cls_sequence (o : BinOp) (h : o.cls = .sequence) : o = .sequence := by
 mutual
 /-- every tree the front end can read from the export of an elaborated expression elaborates to that expression -/
 theorem reelab_aux (hR : Renamed Γ Γ') : ∀ (s : SExpr) (i : IExpr) (τ : ETy), SrcOk s →
-    elabE false Γ s = .ok (i, τ) → OutArgsPlain Γ i → ∀ s', Unelab Γ' i s' → elabE false Γ' s' = .ok (i, τ)
-  | .lit k, i, τ, hs, h, _, s', hu => by
+    elabE false Γ s = .ok (i, τ) → ∀ s', Unelab Γ' i s' → elabE false Γ' s' = .ok (i, τ)
+  | .lit k, i, τ, hs, h, s', hu => by
     simp [elabE, selfCheck] at h
     obtain ⟨rfl, rfl⟩ := h
     have := elabE_unelab_lit hu
     simp only [SrcOk] at hs
     rw [hs] at this
     exact this
-  | .var v, i, τ, _, h, _, s', hu => by
+  | .var v, i, τ, _, h, s', hu => by
     simp only [elabE] at h
     split at h
     · rename_i t ht
@@ -190,7 +190,7 @@ theorem reelab_aux (hR : Renamed Γ Γ') : ∀ (s : SExpr) (i : IExpr) (τ : ETy
       cases hu
       simp [elabE, hR.vars, ht, selfCheck]
     · simp at h
-  | .un o e, i, τ, hs, h, hp, s', hu => by
+  | .un o e, i, τ, hs, h, s', hu => by
     simp only [elabE] at h
     split at h
     · simp at h
@@ -199,10 +199,9 @@ theorem reelab_aux (hR : Renamed Γ Γ') : ∀ (s : SExpr) (i : IExpr) (τ : ETy
       · simp at h
       · rename_i n τn hn
         obtain ⟨rfl, rfl⟩ := selfCheck_false h
-        have hpe : OutArgsPlain Γ e' := elabUn_out hn hp
-        exact elabUn_stable (elab_sound_any false e e' τe he) hn (reelab_aux hR e e' τe hs he hpe)
+        exact elabUn_stable hR (elab_sound_any false e e' τe he) hn (reelab_aux hR e e' τe hs he)
           (fun k hk => elab_lit_kind e k τe hs (by rw [he, hk])) s' hu
-  | .bin o a b, i, τ, hs, h, hp, s', hu => by
+  | .bin o a b, i, τ, hs, h, s', hu => by
     obtain ⟨hsa, hsb⟩ := hs
     simp only [elabE] at h
     split at h
@@ -222,12 +221,9 @@ theorem reelab_aux (hR : Renamed Γ Γ') : ∀ (s : SExpr) (i : IExpr) (τ : ETy
             obtain ⟨rfl, rfl⟩ := selfCheck_false h
             obtain ⟨D, ca, cb, a2, b2, iop, hfa, hfb, hDr, haa, hab, hiop, hnode, hk⟩ := elabArith_stable hn
             subst hnode
-            simp only [OutArgsPlain, OutArgsPlainArgs] at hp
             obtain ⟨x', y', rfl, hx, hy⟩ := unelab_op2 (opSyn_bin o iop hiop) hu
-            obtain ⟨a0, τa0, hela, hba⟩ := reconv hta
-              (reelab_aux hR a a' τa hsa ha (outPlain_of_applyConv haa hp.1)) hfa haa (Or.inl hDr) _ hx
-            obtain ⟨b0, τb0, helb, hbb⟩ := reconv htb
-              (reelab_aux hR b b' τb hsb hb (outPlain_of_applyConv hab hp.2.1)) hfb hab (Or.inl hDr) _ hy
+            obtain ⟨a0, τa0, hela, hba⟩ := reconv hta (reelab_aux hR a a' τa hsa ha) hfa haa (Or.inl hDr) _ hx
+            obtain ⟨b0, τb0, helb, hbb⟩ := reconv htb (reelab_aux hR b b' τb hsb hb) hfb hab (Or.inl hDr) _ hy
             exact elabE_bin_arith hcls hela helb (hk a0 τa0 b0 τb0 hba hbb)
         · -- assignment family
           rename_i hcls
@@ -235,26 +231,23 @@ theorem reelab_aux (hR : Renamed Γ Γ') : ∀ (s : SExpr) (i : IExpr) (τ : ETy
           · simp at h
           · rename_i n τn hn
             obtain ⟨rfl, rfl⟩ := selfCheck_false h
-            obtain ⟨c, b2, iop, hfb, hab, hiop, hnode, hk⟩ := elabAssign_stable hn
+            obtain ⟨c, b2, iop, hfb, hab, hiop, hnode, hk⟩ := elabAssign_stable hR hn
             subst hnode
-            simp only [OutArgsPlain, OutArgsPlainArgs] at hp
             obtain ⟨x', y', rfl, hx, hy⟩ := unelab_op2 (opSyn_bin o iop hiop) hu
-            have hela := reelab_aux hR a a' τa hsa ha hp.1 _ hx
-            obtain ⟨b0, τb0, helb, hbb⟩ := reconv htb
-              (reelab_aux hR b b' τb hsb hb (outPlain_of_applyConv hab hp.2.1)) hfb hab (Or.inl rfl) _ hy
+            have hela := reelab_aux hR a a' τa hsa ha _ hx
+            obtain ⟨b0, τb0, helb, hbb⟩ := reconv htb (reelab_aux hR b b' τb hsb hb) hfb hab (Or.inl rfl) _ hy
             exact elabE_bin_assign hcls hela helb (hk b0 τb0 hbb)
         · -- the comma operator
           rename_i hcls
           obtain ⟨rfl, rfl⟩ := selfCheck_false h
           have ho := cls_sequence o hcls
           subst ho
-          simp only [OutArgsPlain] at hp
           cases hu with
           | seq hx hy =>
-            have hela := reelab_aux hR a a' τa hsa ha hp.1 _ hx
-            have helb := reelab_aux hR b b' τb hsb hb hp.2 _ hy
+            have hela := reelab_aux hR a a' τa hsa ha _ hx
+            have helb := reelab_aux hR b b' τb hsb hb _ hy
             simp [elabE, hela, helb, BinOp.cls, selfCheck]
-  | .tern c a b, i, τ, hs, h, hp, s', hu => by
+  | .tern c a b, i, τ, hs, h, s', hu => by
     obtain ⟨hsc, hsa, hsb⟩ := hs
     simp only [elabE] at h
     split at h
@@ -272,17 +265,16 @@ theorem reelab_aux (hR : Renamed Γ Γ') : ∀ (s : SExpr) (i : IExpr) (τ : ETy
             obtain ⟨rfl, rfl⟩ := selfCheck_false h
             obtain ⟨D, cc, ca, cb, c2, a2, b2, hfc, hac, hfa, hfb, hDr, haa, hab, hnode, hk⟩ := elabTern_stable hn
             subst hnode
-            simp only [OutArgsPlain] at hp
             cases hu with
             | tern huc hua hub =>
               obtain ⟨c0, τc0, helc, hbc⟩ := reconv (elab_sound_any false c c' τc hc)
-                (reelab_aux hR c c' τc hsc hc (outPlain_of_applyConv hac hp.1)) hfc hac (Or.inl rfl) _ huc
+                (reelab_aux hR c c' τc hsc hc) hfc hac (Or.inl rfl) _ huc
               obtain ⟨a0, τa0, hela, hba⟩ := reconv (elab_sound_any false a a' τa ha)
-                (reelab_aux hR a a' τa hsa ha (outPlain_of_applyConv haa hp.2.1)) hfa haa (Or.inl hDr) _ hua
+                (reelab_aux hR a a' τa hsa ha) hfa haa (Or.inl hDr) _ hua
               obtain ⟨b0, τb0, helb, hbb⟩ := reconv (elab_sound_any false b b' τb hb)
-                (reelab_aux hR b b' τb hsb hb (outPlain_of_applyConv hab hp.2.2)) hfb hab (Or.inl hDr) _ hub
+                (reelab_aux hR b b' τb hsb hb) hfb hab (Or.inl hDr) _ hub
               exact elabE_tern helc hela helb (hk c0 τc0 a0 τa0 b0 τb0 hbc hba hbb)
-  | .call name args, i, τ, hs, h, hp, s', hu => by
+  | .call name args, i, τ, hs, h, s', hu => by
     simp only [elabE] at h
     split at h
     · simp at h
@@ -293,45 +285,26 @@ theorem reelab_aux (hR : Renamed Γ Γ') : ∀ (s : SExpr) (i : IExpr) (τ : ETy
         · simp at h
         · rename_i n τn hn
           obtain ⟨rfl, rfl⟩ := selfCheck_false h
-          -- the arguments before their conversion inherit the hypothesis on `out` arguments
-          have hpa : OutArgsPlainArgs Γ args' := by
-            have hn' := hn
-            unfold elabCall at hn'
-            split at hn'
-            · simp at hn'
-            · simp at hn'
-            · simp at hn'
-            · split at hn'
-              · simp at hn'
-              · rename_i sg _
-                split at hn'
-                · simp at hn'
-                · rename_i args2 hca
-                  simp at hn'
-                  obtain ⟨rfl, _⟩ := hn'
-                  simp only [OutArgsPlain] at hp
-                  exact outPlainArgs_of_castArgs sg.params args' ts args2 hca hp.2
-          exact elabCall_stable hR hn (reelabArgs_aux hR args args' ts hs hargs hpa) hp s' hu
-  | .cast t e, i, τ, hs, h, hp, s', hu => by
+          exact elabCall_stable hR hn (reelabArgs_aux hR args args' ts hs hargs) s' hu
+  | .cast t e, i, τ, hs, h, s', hu => by
     obtain ⟨hlt, hse⟩ := hs
     simp only [elabE] at h
     split at h
     · simp at h
     · rename_i e' τe he
       obtain ⟨rfl, rfl⟩ := selfCheck_false h
-      simp only [OutArgsPlain] at hp
       cases hu with
       | castDrop hl _ => rw [hlt] at hl; cases hl
       | cast _ hue =>
-        have := reelab_aux hR e e' τe hse he hp _ hue
+        have := reelab_aux hR e e' τe hse he _ hue
         simp [elabE, this, selfCheck]
 theorem reelabArgs_aux (hR : Renamed Γ Γ') : ∀ (as : SArgs) (args : IArgs) (ts : List ETy), SrcArgsOk as →
-    elabArgs false Γ as = .ok (args, ts) → OutArgsPlainArgs Γ args → ArgsIH Γ Γ' args ts
-  | .nil, args, ts, _, h, _ => by
+    elabArgs false Γ as = .ok (args, ts) → ArgsIH Γ Γ' args ts
+  | .nil, args, ts, _, h => by
     simp [elabArgs] at h
     obtain ⟨rfl, rfl⟩ := h
     trivial
-  | .cons e r, args, ts, hs, h, hp => by
+  | .cons e r, args, ts, hs, h => by
     obtain ⟨hse, hsr⟩ := hs
     simp only [elabArgs] at h
     split at h
@@ -342,8 +315,143 @@ theorem reelabArgs_aux (hR : Renamed Γ Γ') : ∀ (as : SArgs) (args : IArgs) (
       · rename_i r' tr hr
         simp at h
         obtain ⟨rfl, rfl⟩ := h
-        simp only [OutArgsPlainArgs] at hp
-        exact ⟨elab_sound_any false e e' τe he, reelab_aux hR e e' τe hse he hp.1, reelabArgs_aux hR r r' tr hsr hr hp.2⟩
+        exact ⟨elab_sound_any false e e' τe he, reelab_aux hR e e' τe hse he, reelabArgs_aux hR r r' tr hsr hr⟩
+end
+
+/-! ## since fix 3758fdd: no accepted expression passes a `Cast` for an `out` / `inout` parameter -/
+
+mutual
+/-- **the former hypothesis of `reelab_no_new_casts` is a theorem**: in every elaborated expression, at every call, no
+    argument in an `out` / `inout` position is a `Cast` node (`check_output_arguments` runs on the converted arguments and
+    a `Cast` is an rvalue) -/
+theorem elab_outArgsPlain : ∀ (s : SExpr) (i : IExpr) (τ : ETy), elabE false Γ s = .ok (i, τ) → OutArgsPlain Γ i
+  | .lit k, i, τ, h => by
+    simp [elabE, selfCheck] at h
+    obtain ⟨rfl, rfl⟩ := h
+    simp [OutArgsPlain]
+  | .var v, i, τ, h => by
+    simp only [elabE] at h
+    split at h
+    · obtain ⟨rfl, rfl⟩ := selfCheck_false h
+      simp [OutArgsPlain]
+    · simp at h
+  | .un o e, i, τ, h => by
+    simp only [elabE] at h
+    split at h
+    · simp at h
+    · rename_i e' τe he
+      split at h
+      · simp at h
+      · rename_i n τn hn
+        obtain ⟨rfl, rfl⟩ := selfCheck_false h
+        exact elabUn_out hn (elab_outArgsPlain e e' τe he)
+  | .bin o a b, i, τ, h => by
+    simp only [elabE] at h
+    split at h
+    · simp at h
+    · rename_i a' τa ha
+      split at h
+      · simp at h
+      · rename_i b' τb hb
+        have hpa := elab_outArgsPlain a a' τa ha
+        have hpb := elab_outArgsPlain b b' τb hb
+        split at h
+        · split at h
+          · simp at h
+          · rename_i n τn hn
+            obtain ⟨rfl, rfl⟩ := selfCheck_false h
+            obtain ⟨_, _, ca, cb, a2, b2, iop, _, _, _, _, _, _, haa, hab, _, _, rfl⟩ := elabArith_inv hn
+            simp only [OutArgsPlain, OutArgsPlainArgs, and_true]
+            exact ⟨applyConv_out haa hpa, applyConv_out hab hpb⟩
+        · split at h
+          · simp at h
+          · rename_i n τn hn
+            obtain ⟨rfl, rfl⟩ := selfCheck_false h
+            obtain ⟨c, b2, iop, hab, rfl⟩ := elabAssign_node hn
+            simp only [OutArgsPlain, OutArgsPlainArgs, and_true]
+            exact ⟨hpa, applyConv_out hab hpb⟩
+        · obtain ⟨rfl, rfl⟩ := selfCheck_false h
+          simp only [OutArgsPlain]
+          exact ⟨hpa, hpb⟩
+  | .tern c a b, i, τ, h => by
+    simp only [elabE] at h
+    split at h
+    · simp at h
+    · rename_i c' τc hc
+      split at h
+      · simp at h
+      · rename_i a' τa ha
+        split at h
+        · simp at h
+        · rename_i b' τb hb
+          split at h
+          · simp at h
+          · rename_i n τn hn
+            obtain ⟨rfl, rfl⟩ := selfCheck_false h
+            obtain ⟨D, cc, ca, cb, c2, a2, b2, hfc, hac, hfa, hfb, hDr, haa, hab, rfl, hk⟩ := elabTern_stable hn
+            simp only [OutArgsPlain]
+            exact ⟨applyConv_out hac (elab_outArgsPlain c c' τc hc), applyConv_out haa (elab_outArgsPlain a a' τa ha),
+              applyConv_out hab (elab_outArgsPlain b b' τb hb)⟩
+  | .call name args, i, τ, h => by
+    simp only [elabE] at h
+    split at h
+    · simp at h
+    · split at h
+      · simp at h
+      · rename_i args' ts hargs
+        split at h
+        · simp at h
+        · rename_i n τn hn
+          obtain ⟨rfl, rfl⟩ := selfCheck_false h
+          have hpa := elabArgs_outArgsPlain args args' ts hargs
+          unfold elabCall at hn
+          split at hn
+          · simp at hn
+          · simp at hn
+          · simp at hn
+          · split at hn
+            · simp at hn
+            · rename_i sg hsg
+              split at hn
+              · simp at hn
+              · rename_i args2 hca
+                split at hn
+                · simp at hn
+                · rename_i hchk
+                  simp at hn
+                  obtain ⟨rfl, _⟩ := hn
+                  simp only [OutArgsPlain]
+                  refine ⟨?_, castArgs_out sg.params args' ts args2 hca hpa⟩
+                  intro sg' hsg'
+                  rw [hsg] at hsg'
+                  cases hsg'
+                  exact outArgsPlain_of_checkOutArgs sg.params args2 hchk
+  | .cast t e, i, τ, h => by
+    simp only [elabE] at h
+    split at h
+    · simp at h
+    · rename_i e' τe he
+      obtain ⟨rfl, rfl⟩ := selfCheck_false h
+      simp only [OutArgsPlain]
+      exact elab_outArgsPlain e e' τe he
+theorem elabArgs_outArgsPlain : ∀ (as : SArgs) (args : IArgs) (ts : List ETy),
+    elabArgs false Γ as = .ok (args, ts) → OutArgsPlainArgs Γ args
+  | .nil, args, ts, h => by
+    simp [elabArgs] at h
+    obtain ⟨rfl, rfl⟩ := h
+    simp [OutArgsPlainArgs]
+  | .cons e r, args, ts, h => by
+    simp only [elabArgs] at h
+    split at h
+    · simp at h
+    · rename_i e' τe he
+      split at h
+      · simp at h
+      · rename_i r' tr hr
+        simp at h
+        obtain ⟨rfl, rfl⟩ := h
+        simp only [OutArgsPlainArgs]
+        exact ⟨elab_outArgsPlain e e' τe he, elabArgs_outArgsPlain r r' tr hr⟩
 end
 
 end RsslVerif.Lemmas.FixpointMain
